@@ -502,7 +502,7 @@ pub fn c05(big: bool) -> BoxedStrategy<Case> {
         2 => Just(vec![]),
         3 => vec(prop_oneof![4 => light_timer().prop_map(Step::AddTimer), 1 => (0u8..2).prop_map(Step::Subscribe)], 1..=3),
     ];
-    (plain_spawn(false), started, 1usize..=3)
+    (prop_oneof![5 => plain_spawn(false), 1 => proptest::option::of(mailbox()).prop_map(|builder| SpawnSpec::Register { builder })], started, 1usize..=3)
         .prop_flat_map(move |(spawn, started, n)| {
             let owning = spawn.owning();
             (
